@@ -220,6 +220,8 @@ impl<'a> Compiler<'a> {
         // counting (e.g. `a + b()` where b is fallible already pushed) means
         // checking that the pending stack didn't grow during compilation.
         let type_def = expr.type_info(&original_state).result;
+        #[cfg(vrl_verif)]
+        crate::compiler::verif::compiled(span, &expr, &type_def, &original_state);
         if type_def.is_fallible() && self.pending_fallibilities.len() == pre_compile_pending {
             self.pending_fallibilities
                 .push(CompilerError::ExpressionError(
